@@ -443,6 +443,77 @@ def instance_predicate_obligations(chk):
                {"bad": bad, "objects": len(objs)}))
 
 
+def value_predicate_obligations(chk):
+    """The predicates about *values*: isbuiltininstance / isstdlibinstance are isinstance against the documented tables, isproperty
+    is 'an instance of property or functools.cached_property', issimpleattribute is 'none of class, routine, property, descriptor',
+    isabstract is inspect.isabstract or membership in the documented ABC table (symbolic, externals uninterpreted); isdescriptor is
+    'has one of the four descriptor-protocol methods' (ground: Python's own hasattr answers over a catalogue)."""
+    import functools
+    import inspect as _inspect
+    from typelib.py import inspection as _i
+    I = make_interp()
+    UF = {n: z3.Function("U_" + n, Val, BoolS) for n in ("isclass", "isroutine", "isproperty", "isdescriptor", "inspect_isabstract")}
+    I.builtin_models[_inspect.isclass] = lambda I, p, a, k: SBool(UF["isclass"](to_val(a[0])))
+    I.builtin_models[_inspect.isroutine] = lambda I, p, a, k: SBool(UF["isroutine"](to_val(a[0])))
+    I.builtin_models[_inspect.isabstract] = lambda I, p, a, k: SBool(UF["inspect_isabstract"](to_val(a[0])))
+
+    def run(name, spec, clause, stubs=()):
+        func = f"{INSP}.{name}"
+        for st in stubs:
+            I.stubs[f"{INSP}.{st}"] = Stub(f"inspection.{st}", (lambda n: lambda I, p, a, k: SBool(UF[n](to_val(a[0]))))(st), f"{st}(v): its own clause in this check")
+
+        def mk(I, path):
+            for c in _i.BUILTIN_TYPES_TUPLE + _i.STDLIB_TYPES_TUPLE + (property, functools.cached_property):
+                cls_const(c)
+            v = path.fresh("v")
+            return [SV(v)], {}, {"v": v}
+        for pi, (path, out, obls, writes, cur) in enumerate(I.run_function(func, mk)):
+            goal = to_bool_term(out.value) == spec(cur["v"]) if out.kind == "ret" else z3.BoolVal(False)
+            chk.add(Ob(func, clause, f"p{pi}", path.hyps + class_axioms(), goal, {"outcome": out.kind, "why": str(out.value)[:160] if out.kind != "ret" else ""}))
+        for st in stubs:
+            I.stubs.pop(f"{INSP}.{st}", None)
+    run("isbuiltininstance", lambda v: z3.Or(*[sub(cls_of(v), cls_const(c)) for c in _i.BUILTIN_TYPES_TUPLE]),
+        "isinstance-against-the-documented-builtin-table")
+    run("isstdlibinstance", lambda v: z3.Or(*[sub(cls_of(v), cls_const(c)) for c in _i.STDLIB_TYPES_TUPLE]),
+        "isinstance-against-the-documented-stdlib-table")
+    run("isproperty", lambda v: z3.Or(sub(cls_of(v), cls_const(property)), sub(cls_of(v), cls_const(functools.cached_property))),
+        "an-instance-of-property-or-cached_property")
+    run("issimpleattribute", lambda v: z3.Not(z3.Or(UF["isclass"](v), UF["isroutine"](v), UF["isproperty"](v), UF["isdescriptor"](v))),
+        "neither-a-class-nor-a-routine-nor-a-property-nor-a-descriptor", stubs=("isproperty", "isdescriptor"))
+    abcs = I.mods.resolve(INSP, "_ABCS")
+    run("isabstract", lambda v: z3.Or(UF["inspect_isabstract"](v), *[v == _safe_val(x) for x in abcs]),
+        "inspect.isabstract-or-a-member-of-the-documented-ABC-table")
+    chk.trusted.update(I.assumed_used)
+
+    # isdescriptor: ground
+    class G:
+        def __get__(self, o, t=None): return 1
+
+    class S_:
+        def __set__(self, o, v): pass
+
+    class D:
+        def __delete__(self, o): pass
+
+    class N:
+        def __set_name__(self, o, n): pass
+
+    class Plain:
+        x = 1
+    objs = [G(), S_(), D(), N(), Plain(), 1, "s", None, property(lambda s: 1), functools.cached_property(lambda s: 1), len, (lambda: 0), int, Plain,
+            staticmethod(len), classmethod(len), Plain.__dict__["__dict__"], [], {}]
+    bad = []
+    for x in objs:
+        want = any(hasattr(x, m) for m in ("__get__", "__set__", "__delete__", "__set_name__"))
+        try:
+            got = _i.isdescriptor(x)
+        except Exception as e:
+            got = f"raised {type(e).__name__}"
+        if got is not want:
+            bad.append(f"isdescriptor({x!r}) is {got!r}, hasattr says {want}")
+    chk.add(Ob(f"{INSP}.isdescriptor", "true-exactly-for-objects-with-a-descriptor-protocol-method", "ground", [], z3.BoolVal(not bad), {"bad": bad, "objects": len(objs)}))
+
+
 def signature_helper_obligations(chk):
     """typed_dict_signature(TD): one keyword-only parameter per key, annotated with the key's type, required (no default)
     exactly for the keys in TD.__required_keys__ - whatever the keys are called and however totality was inherited."""
@@ -563,6 +634,7 @@ def composed_predicates(chk):
 
 def obligations(chk):          # noqa: F811
     composed_predicates(chk)
+    value_predicate_obligations(chk)
     signature_helper_obligations(chk)
     instance_predicate_obligations(chk)
     class_predicates(chk)
